@@ -69,8 +69,8 @@ Wang(lv, pr, w, wf)   == [Base EXCEPT !.problem = "WangCubic", !.n = 2, !.noise 
 SeqTiny  == { D1(<<4, 4, "ramp">>, "zero", Giv("ramp"), "gaussian", Giv(Q(2, 1)), NotGivenS, "alt") }
 SeqQuick == SeqTiny \cup
     { D1(<<5, 3, "sym">>, "periodic", Giv("sq"), "scaledgaussian", Giv(Q(1, 2)), Giv("ones4"), "ed"),
-      DL(<<4, 4, "ramp">>, "conv", Giv("ramp"), "gaussian", Giv(Q(1, 2)), NotGivenS, "alt"),
-      DL(<<4, 4, "ramp">>, "corr", Giv("ramp"), "gaussian", Giv(Q(1, 2)), NotGivenS, "alt"),
+      DL(<<4, 4, "ramp">>, Giv("ramp"), "gaussian", Giv(Q(1, 2)), NotGivenS, "alt"),
+      DL(<<4, 4, "sym">>, Giv("sq"), "gaussian", Giv(Q(1, 2)), NotGivenS, "ed"),
       D2(<<3, 2, "ramp">>, "neumann", Giv("sq"), "gaussian", Giv(Q(1, 2)), NotGivenS, "alt"),
       HeatLike("Heat1D", Giv(R(10)), "alt", NotGivenS),
       HeatLike("Poisson1D", Giv(R(10)), "ed", Giv("sq")),
@@ -81,8 +81,8 @@ SeqThorough == SeqQuick \cup
     { D1(<<5, 3, "ramp">>, "reflect", Giv("ramp"), "scaledgaussian", Giv(Q(2, 1)), NotGivenS, "alt"),
       D1(<<4, 4, "ramp">>, "mirror", Giv("sq"), "gaussian", Giv(Q(1, 10)), Giv("ones4"), "ones"),
       D1(<<3, 5, "ramp">>, "nearest", Giv("sq"), "gaussian", NotGivenQ, NotGivenS, "e1"),
-      DL(<<6, 6, "ramp">>, "conv", Giv("sq"), "scaledgaussian", Giv(Q(1, 2)), Giv("ones4"), "ed"),
-      DL(<<6, 6, "ramp">>, "corr", Giv("sq"), "scaledgaussian", Giv(Q(1, 2)), Giv("ones4"), "ed"),
+      DL(<<6, 6, "ramp">>, Giv("sq"), "scaledgaussian", Giv(Q(1, 2)), Giv("ones4"), "ed"),
+      DL(<<6, 6, "oneside">>, Giv("ramp"), "gaussian", Giv(Q(2, 1)), NotGivenS, "alt"),
       D2(<<3, 2, "ramp">>, "periodic", Giv("ramp"), "scaledgaussian", Giv(Q(2, 1)), Giv("ones4"), "ed"),
       D2(<<2, 3, "quad">>, "mirror", Giv("sq"), "gaussian", Giv(Q(1, 2)), NotGivenS, "ones"),
       HeatLike("Heat1D", Giv(R(2)), "ed", Giv("sq")),
